@@ -28,7 +28,7 @@ PAIRS = {
     "d3": dict(short_flags="", short_args="", env=[]),
     "d4": dict(short_flags="q", short_args="s", env=["VERIF_D4"]),
     "d5": dict(short_flags="lz", short_args="t", env=[]),
-    "d6": dict(short_flags="", short_args="", env=[]),
+    "d6": dict(short_flags="v", short_args="n", env=[]),
     "d7": dict(short_flags="", short_args="", env=[]),
 }
 
